@@ -78,11 +78,12 @@ def strace_traces(ctx, bins, scripts):
         res = os.path.join(ctx.run, "child-%d.jsonl" % i)
         mark = "tr%d_%d" % (os.getpid(), i)
         env = dict(os.environ, REALRUN_MARK=mark)
+        orig = lines
         lines = ["export VERIF_MARK=%s; %s" % (mark, l) for l in lines]
         if kt is not None:
             env["REALRUN_KT_MS"] = str(kt)
         cmd = ["strace", "-f", "-Y", "-e", "trace=kill,setpgid,exit_group", "-o", out, bins["realrun"], "-mode", "procchild", "-n", "350", "-out", res] + lines
-        procs.append((i, lines, kt, out, res, subprocess.Popen(cmd, cwd=ctx.run, env=env, stdout=subprocess.DEVNULL, stderr=subprocess.DEVNULL)))
+        procs.append((i, orig, kt, out, res, subprocess.Popen(cmd, cwd=ctx.run, env=env, stdout=subprocess.DEVNULL, stderr=subprocess.DEVNULL)))
     out_all = []
     for i, lines, kt, out, res, p in procs:
         try:
